@@ -471,6 +471,38 @@ theorem c19_src_build_linear (H : Bytes → Bytes) (calls : List (Bits × List C
     simp only [List.map_cons, List.sum_cons, List.length_cons]
     omega
 
+/-- PRUNED BRANCH (type 1), stated separately because the "≤ 4 level iterations" of `c19_src_hash_work` does NOT hold for it: its level mask is
+the second data byte (any value 0..255; the constructor does not bound it by 7), the level loop `for li in range(level + 1)` starts
+`≤ bit_length(mask byte) + 1 ≤ 9` iterations, the constructor returns only without references, and the depth loop and the hash loop over the
+references do not run at all (every iteration of the level loop but the hashed one `continue`s). -/
+theorem c19_src_level_loop_pruned (H : Bytes → Bytes) (bits : Bits) (refs : List CellInfo) :
+    (init_cnt H bits refs 1).2 1 ≤ levelIters 1 refs bits ∧ levelIters 1 refs bits ≤ 9 ∧
+    (init_cnt H bits refs 1).2 2 = 0 ∧ (init_cnt H bits refs 1).2 3 = 0 ∧
+    (∀ m, Generated.CellCtor.resolve_mask 1 refs bits = some m → refs = [] ∧ m < 256) := by
+  obtain ⟨a, b, c, d⟩ := pruned_ticks H bits refs
+  exact ⟨a, b, c, d, resolve_mask_pruned refs bits⟩
+
+/-- LEVEL MASKS FIT A BYTE, for every cell type: if the children's masks are ≤ 255 the constructed cell's mask is ≤ 255 - so the hypothesis of
+`c19_src_build_linear_any` holds of every child that was itself returned by this constructor (induction over the construction order; leaves have
+no children). -/
+theorem c19_src_mask_byte (H : Bytes → Bytes) (bits : Bits) (refs : List CellInfo) (ty : Int) (out : Generated.CellCtor.CtorOut)
+    (hr : ∀ r ∈ refs, r.mask ≤ 255) (h : Generated.CellCtor.init H bits refs ty = some out) : out.mask ≤ 255 :=
+  resolve_mask_le255 ty refs bits hr out.mask (init_mask H bits refs ty out h)
+
+/-- BUILDING A DAG, ANY CELL TYPES (ordinary, pruned, library, Merkle), no hypothesis on levels beyond "masks fit a byte" (`c19_src_mask_byte`:
+guaranteed by the constructor itself): every call starts ≤ 9 level iterations and `≤ 9 + 19·len(refs)` loop iterations (`d + lv(1 + 2d)` with
+`lv ≤ 9`: an ordinary cell over a pruned branch of mask 255 really hashes 9 levels), so `n` calls carrying `e` references: `≤ 9n + 19e`. -/
+theorem c19_src_build_linear_any (H : Bytes → Bytes) (calls : List (Bits × List CellInfo × Int))
+    (hok : ∀ c ∈ calls, ∀ r ∈ c.2.1, r.mask ≤ 255) :
+    (calls.map fun c => ctorIters H c.1 c.2.1 c.2.2).sum ≤ 9 * calls.length + 19 * (calls.map fun c => c.2.1.length).sum := by
+  induction calls with
+  | nil => simp
+  | cons c cs ih =>
+    have h := ctor_le_any H c.1 c.2.1 c.2.2 (hok c (by simp))
+    have := ih (fun x hx => hok x (by simp [hx]))
+    simp only [List.map_cons, List.sum_cons, List.length_cons, ctorIters] at *
+    omega
+
 /-- non-vacuity: an ordinary cell with two level-0 children: 2 + 1·(1 + 2·2) = 7 iterations, the level loop runs once -/
 example : let leaf : CellInfo := { kind := -1, bits := [], nrefs := 0, mask := 0, hashes := [[0]], depths := [0] }
     ((init_cnt (fun b => b) [true] [leaf, leaf] (-1)).1.isSome, ctorIters (fun b => b) [true] [leaf, leaf] (-1),
